@@ -668,6 +668,11 @@ class Exec:
         v = self.ctx.module_name(self, n)
         if v is not None:
             return v
+        if self.side != "spec" and self.ctx.cur_module:
+            # a module-level helper function used as a value (passed as a callback): the same value as a nested def with that body
+            fdef, _ = self.ctx.extract(self.ctx.cur_module, n)
+            if isinstance(fdef, ast.FunctionDef) and not fdef.decorator_list:
+                return Closure(fdef, None)
         raise Unsupported("unknown name %s" % n, e)
 
     def boolop(self, e, p):
